@@ -53,6 +53,10 @@ Init ==
             cs = [fam |-> "union3", doc |-> Doc3(t, u, v),
                   q |-> IF left THEN Union(Union(Branch("t", None), Branch("u", None), a1, wi), Branch("v", None), a2, NoWin)
                                 ELSE Union(Branch("v", None), Union(Branch("t", None), Branch("u", None), a1, wi), a2, NoWin)]
+       \* branches whose select lists are aggregates without GROUP BY (one row each), spelled alike on both sides
+       \/ \E t \in Tbls : \E u \in Tbls : \E all \in BOOLEAN : \E ag \in {<<Item(Agg("count", <<>>), "n")>>, <<Item(Agg("count", <<>>), "n"), Item(Agg("count", <<"a">>), "m")>>} :
+            cs = [fam |-> "union2", doc |-> Doc3(t, u, <<>>),
+                  q |-> Union([Branch("t", None) EXCEPT !.sel = ag], [Branch("u", None) EXCEPT !.sel = ag], all, NoWin)]
        \* DISTINCT over grouped rows: groups that agree on the selected columns give one row
        \* (scalar grouping keys: what GROUP BY makes of an array or an object is claimed by no property)
        \/ \E tbl \in SeqsUpTo({r \in DPool : \A x \in DOMAIN r.f : ~IsArr(r.f[x]) /\ ~IsObj(r.f[x])}, MaxRows) : \E sl \in {<<Item(Col("a"), "")>>, <<Item(Col("b"), "")>>, <<Item(Col("a"), ""), Item(Col("b"), "")>>, <<Item(Col("b"), "k"), Item(Agg("count", <<>>), "c")>>} :
